@@ -197,6 +197,7 @@ def St.burst (s : St) (calls : List String) : St × String :=
   host <id> <addr> <dc> <rack> <tokens|->          define a HostInfo object (state UP)
   hostp <id> <hostid> <addr> <port> <dc> <rack> <tokens|->   the same with an explicit host id and native port
   add|remove|hup|hdown <id>                        AddHost / RemoveHost / HostUp / HostDown → snapshot of the lists
+  kstab <ks> none|empty|<tok>:<ids> ...            the table the policy holds for a NetworkTopologyStrategy keyspace (observed)
   setpart                                          SetPartitioner(OrderedPartitioner) after reset (late partitioner)
   islocal <id>                                     IsLocal(host) [HostTier/MaxHostTier for a HostTierer]
   addhosts <id,id,...>                             AddHosts([...]) (token-aware policy; AddHost per host otherwise: Session.init)
@@ -230,8 +231,18 @@ def step (s : St) (ws : List String) : St × String :=
     ({ init with isTA := ta == "1", t := TA.new (Pol.new kind (nat ldc) (nat lrack)) (sh == "1") (nl == "1") (ta == "1" && ps == "1") }, "ok")
   | ["sessks", ks] => (bump { s with t := { s.t with sessKs := some (nat ks) } }, "ok")
   | ["ksmeta", ks, v] =>
-    let m : Option (Option Nat) := if v == "none" then none else if v == "local" then some none else some (some (nat v))
+    -- (w-s11f) "nts:..." = NetworkTopologyStrategy: not computed by this model (placement is C10's model); to the model
+    -- the keyspace is unknown and its table arrives as `kstab` lines
+    let m : Option (Option Nat) := if v == "none" || v.startsWith "nts" then none else if v == "local" then some none else some (some (nat v))
     (bump { s with t := s.t.setMeta (nat ks) m }, "ok")
+  | "kstab" :: ks :: tab =>
+    if !s.isTA || tab.isEmpty then (s, "bad-op") else
+    let k := nat ks
+    let t' : TA :=
+      if tab == ["none"] then { s.t with replicas := s.t.replicas.filter (fun e => e.1 != k) }
+      else if tab == ["empty"] then s.t.setReplicas k []
+      else s.t.setReplicas k (parseTable s tab)
+    (bump { s with t := t', inj := if tab == ["none"] then s.inj.filter (· != k) else k :: s.inj.filter (· != k) }, "ok")
   | ["setpart"] =>
     (bump { s with t := if s.isTA then s.t.setPartitioner else s.t, inj := if s.isTA && !s.t.partSet then [] else s.inj }, "ok")
   | ["islocal", id] =>
